@@ -33,7 +33,9 @@ def _case(draw):
     outs = draw(sc.outcomes(n, 0.3))
     workers = draw(st.sampled_from([1, 2, 2, 2, 3, 3, 4]))
     sched = draw(sc.schedules(max_len=120))
-    return {'n': n, 'edges': edges, 'outcomes': outs, 'workers': workers, 'sched': sched}
+    case = {'n': n, 'edges': edges, 'outcomes': outs, 'workers': workers, 'sched': sched}
+    case.update(draw(sc.extras(n)))
+    return case
 
 
 def strategy(tier):
@@ -108,6 +110,7 @@ def judge(case, rec, out, sched_for_replay=None):
 
 def run_case(case):
     out = Outcome()
+    out.labels.extend(sc.shape_labels(case))
     spec = case['sched']
     hard, soft = sc.deps_of(case)
     has_edge = any(hard[i] | soft[i] for i in hard)
